@@ -101,31 +101,25 @@ Definition alloc_done (fixed : bool) (s : life) (had_existing had_missing : bool
   if negb (alloc s) then s else
   let s1 := set s (started s) (stopping s) false (verif s) (completed s) (complC_closed s) true (bf s) (do_verify s)
                 (held s + pending s) 0 (leaked s) (persisted s) (crashed s) in
-  match bf s1 with
-  | Some b =>
-      if negb had_missing then
-        (* the resume bitfield is trusted *)
-        check_completion s1
-      else if negb had_existing then
-        let s3 := set s1 (started s1) (stopping s1) false (verif s1) (completed s1) (complC_closed s1) true (Some padonly) (do_verify s1)
-                      (held s1) (pending s1) (leaked s1) (persisted s1) (crashed s1) in
-        let s4 := if all_true padonly then s3 else reset_completion fixed s3 in
-        if fixed && do_verify s4 then
-          do_stop fixed (set s4 (started s4) (stopping s4) false (verif s4) (completed s4) (complC_closed s4) true (bf s4) false
-                       (held s4) (pending s4) (leaked s4) (persisted s4) (crashed s4))
-        else s4
-      else start_verifier s1
-  | None =>
-      if negb had_existing then
-        let s3 := set s1 (started s1) (stopping s1) false (verif s1) (completed s1) (complC_closed s1) true (Some padonly) (do_verify s1)
-                      (held s1) (pending s1) (leaked s1) (persisted s1) (crashed s1) in
-        let s4 := if all_true padonly then s3 else reset_completion fixed s3 in
-        if fixed && do_verify s4 then
-          do_stop fixed (set s4 (started s4) (stopping s4) false (verif s4) (completed s4) (complC_closed s4) true (bf s4) false
-                       (held s4) (pending s4) (leaked s4) (persisted s4) (crashed s4))
-        else s4
-      else start_verifier s1
-  end.
+  let trusted := match bf s1 with Some _ => negb had_missing | None => false end in
+  if trusted then check_completion s1        (* every file is there: the resume bitfield is trusted *)
+  else
+    (* files were missing: the old bitfield, if any, no longer describes the disk; the repaired code
+       forgets it at once, also in the resume database (fix D25) *)
+    let s2 := if fixed && had_missing
+              then set s1 (started s1) (stopping s1) false (verif s1) (completed s1) (complC_closed s1) true None (do_verify s1)
+                       (held s1) (pending s1) (leaked s1) None (crashed s1)
+              else s1 in
+    if negb had_existing then
+      (* nothing was there: start from scratch (padding-only pieces are complete, fix D21); persisted at once (D25) *)
+      let s3 := set s2 (started s2) (stopping s2) false (verif s2) (completed s2) (complC_closed s2) true (Some padonly) (do_verify s2)
+                    (held s2) (pending s2) (leaked s2) (if fixed then Some padonly else persisted s2) (crashed s2) in
+      let s4 := if all_true padonly then s3 else reset_completion fixed s3 in
+      if fixed && do_verify s4 then
+        do_stop fixed (set s4 (started s4) (stopping s4) false (verif s4) (completed s4) (complC_closed s4) true (bf s4) false
+                     (held s4) (pending s4) (leaked s4) (persisted s4) (crashed s4))
+      else if fixed then check_completion s4 else s4
+    else start_verifier s2.
 
 (* handleVerificationDone: the verifier's bitfield is [pok] *)
 Definition verify_done (fixed : bool) (s : life) : life :=
@@ -217,7 +211,8 @@ Inductive levent :=
 | EAlloc (had_existing had_missing : bool) (padonly pok_after fex_after : list bool)
 | EVerDone | EStopped
 | EPiece (i : Z)
-| EMutate (fex pk : list bool).
+| EMutate (fex pk : list bool)
+| EPersist.                      (* the periodic resume write of the session *)
 
 Definition apply_ev (fixed : bool) (s : life) (e : levent) : life :=
   match e with
@@ -229,6 +224,11 @@ Definition apply_ev (fixed : bool) (s : life) (e : levent) : life :=
   | EStopped => stopped_done fixed s
   | EPiece i => piece_written s i
   | EMutate fx pk => mutate s fx pk
+  | EPersist => match bf s with
+                | Some b => set s (started s) (stopping s) (alloc s) (verif s) (completed s) (complC_closed s) (has_pieces s) (bf s)
+                                (do_verify s) (held s) (pending s) (leaked s) (Some b) (crashed s)
+                | None => s
+                end
   end.
 
 Definition dec_ev (np nf : nat) (l : list Z) : option (levent * list Z) :=
@@ -248,6 +248,7 @@ Definition dec_ev (np nf : nat) (l : list Z) : option (levent * list Z) :=
   | 5 :: r => Some (EVerDone, r)
   | 6 :: r => Some (EStopped, r)
   | 7 :: i :: r => Some (EPiece i, r)
+  | 9 :: r => Some (EPersist, r)
   | 8 :: r => match rdn nf r with
               | Some (fx, r1) => match rdn np r1 with
                                  | Some (pk, r2) => Some (EMutate (map z2b fx) (map z2b pk), r2)
@@ -354,3 +355,58 @@ Definition mon_life_code (inp obs : list Z) : Z :=
   | _ => 999
   end.
 Definition mon_life (inp obs : list Z) : bool := mon_life_code inp obs =? 0.
+
+(* ---- restart after a crash (C05): what the client believes after it was started on the resume
+   database and the files found at the crash instant, given the persisted bitfield, the files that
+   exist and, per piece, whether the bytes on disk are the content ---- *)
+Definition restart_bits (fixed : bool) (pers : option (list bool)) (padonly pk : list bool) (fex : list bool) : list bool * bool :=
+  let he := existsb (fun b => b) fex in
+  let hm := existsb negb fex in
+  match pers with
+  | Some b => if negb hm then (b, true)              (* every file is there: the resume bitfield is trusted *)
+              else if negb he then (padonly, true)   (* nothing is there: start from scratch *)
+              else (pk, true)                        (* something is missing: everything is re-verified *)
+  | None => if negb he then (padonly, true) else (pk, true)
+  end.
+
+(* kind 501: in = [np nf (padonly)*np haspers (bits)*np (pok)*np (fex)*nf] ; obs = [status hasbf bits completed crashed] *)
+Definition run_restart (fixed : bool) (inp : list Z) : list Z :=
+  match inp with
+  | np :: nf :: r =>
+      let n := Z.to_nat np in let m := Z.to_nat nf in
+      match rdn n r with
+      | Some (po, hp :: r1) =>
+          match rdn n r1 with
+          | Some (pb, r2) =>
+              match rdn n r2 with
+              | Some (pk, r3) =>
+                  match rdn m r3 with
+                  | Some (fx, _) =>
+                      let '(bits, _) := restart_bits fixed (if z2b hp then Some (map z2b pb) else None) (map z2b po) (map z2b pk) (map z2b fx) in
+                      let compl := forallb (fun b => b) bits in
+                      [(if compl then 2 else 1); 1] ++ map b2z bits ++ [b2z compl; 0]
+                  | None => [-779]
+                  end
+              | None => [-779]
+              end
+          | None => [-779]
+          end
+      | _ => [-779]
+      end
+  | _ => [-779]
+  end.
+
+(* the property on the restart: a piece the restarted client holds has its content on disk *)
+Definition mon_restart (inp obs : list Z) : bool :=
+  match inp with
+  | np :: nf :: r =>
+      let n := Z.to_nat np in
+      let pk := firstn n (skipn (n + 1 + n) r) in
+      let bits := firstn n (skipn 2 obs) in
+      (nth (2 + n + 1) obs 1 =? 0) &&
+      forallb (fun bp => negb (negb (fst bp =? 0) && (snd bp =? 0))) (combine bits pk)
+  | _ => false
+  end.
+
+(* kind 502: a data file is opened for synchronous writes whether it is created or reopened *)
+Definition run_osync (inp : list Z) : list Z := [0; 1; 1; 1].
